@@ -51,6 +51,83 @@ CHECKS = {
             lang("random", "c01", 4000, 160000, ["--nctx", "6", "--depth", "4"], shards=SH),
         ],
     ),
+    "C02": dict(
+        level="model_checking",
+        rule="random filters over container fields nested to depth 3 (index paths with [n], [\"k\"], [*], bool-array logic, any/all), "
+             "each executed on random contexts (empty/ragged/absent containers), recorded and validated by Trace_Lang against "
+             "GetPath/Flatten/EvalV (L1)",
+        assumptions=["token renderer and abs() projection of the harness"],
+        stages=[
+            lang("containers", "c02", 4000, 120000, ["--nctx", "6", "--depth", "3", "--nestpct", "45"], shards=SH),
+            lang("rich", "rich", 2000, 60000, ["--nctx", "5", "--depth", "3"], shards=SH, seed_off=1),
+        ],
+    ),
+    "C03": dict(
+        level="model_checking",
+        rule="random calls of the harness function family (identity/len/pair/optional/literal-only/field-only/bool converters/"
+             "ctxfn/concat) with field, index, map-each, literal, nested-call and logical arguments; results validated against "
+             "EvalCall/FnSem (L1)",
+        assumptions=["the harness functions compute the same pure functions as WfEval!FnSem (twin definitions)"],
+        stages=[
+            lang("calls", "rich", 4000, 150000, ["--nctx", "6", "--depth", "3", "--callpct", "70"], shards=SH),
+        ],
+    ),
+    "C04": dict(
+        level="model_checking",
+        rule="well-typed random compositions and single/double-token mutations of them (operator, literal kind, index kind, "
+             "identifier, bracket, argument changes); parse verdict must equal the L2 parser model's, accepted programs are "
+             "executed on every context without panic",
+        assumptions=["mutations stay inside the modelled token fragment (see DESIGN section 8)"],
+        stages=[
+            lang("mutants", "rich", 5000, 200000, ["--nctx", "4", "--depth", "3", "--mutate", "60"], shards=SH),
+            lang("scalar-mutants", "c01", 2000, 60000, ["--nctx", "4", "--depth", "4", "--mutate", "60"], shards=SH, seed_off=2),
+        ],
+    ),
+    "C07": dict(
+        level="model_checking",
+        rule="for each random filter: 4 alias/white-space variants must parse to equal ASTs with identical JSON text and hash, "
+             "the tagged JSON must equal WfJson!AstJson, and a mutated partner must serialize differently iff its AstJson differs",
+        assumptions=["std DefaultHasher is used as the Hash consumer"],
+        stages=[
+            lang("canon", "c07", 2500, 80000, ["--nctx", "1", "--depth", "3", "--mutate", "10"], shards=SH),
+        ],
+    ),
+    "C09": dict(
+        level="model_checking",
+        rule="random `in {..}` comparisons with up to 40 items (values, ranges, CIDRs, mixed families) whose endpoints are drawn "
+             "around context values and type extremes; results validated against WfEval!InItem (declarative membership)",
+        assumptions=[],
+        stages=[
+            lang("sets", "rich", 3000, 100000, ["--nctx", "8", "--depth", "1", "--setpct", "85", "--setmax", "40", "--listpct", "0", "--callpct", "5", "--nestpct", "5"], shards=SH),
+        ],
+    ),
+    "C12": dict(
+        level="model_checking",
+        rule="uses()/uses_list() of every scheme field (and an unknown name, and a function name) on every random filter and value "
+             "expression, validated against WfSyntax!UsesLogical/UsesListLogical",
+        assumptions=[],
+        stages=[
+            lang("uses", "rich", 4000, 120000, ["--nctx", "1", "--depth", "3", "--callpct", "60", "--listpct", "35"], shards=SH),
+        ],
+    ),
+    "C13": dict(
+        level="model_checking",
+        rule="nesting shapes over {paren, not, any/all, call} of depth 0..9 against limits 0..8 and depth d-1,d,d+1 against "
+             "d in {16,64,128,129,200}, with the deep path in chain operands and call arguments; verdict must equal the L2 counter model",
+        assumptions=[],
+        stages=[
+            lang("nesting", "c13", 4000, 100000, ["--nctx", "2"], shards=SH),
+        ],
+    ),
+    "C17": dict(
+        level="model_checking",
+        rule="random `in $name` comparisons (valid and invalid names over a 1 _ . A - z) on fields, index paths, map-each paths and "
+             "calls, against set/always/never list definitions registered for different types",
+        assumptions=["SetMatcher is the harness's list matcher (membership in named sets)"],
+        stages=[
+            lang("lists", "rich", 4000, 120000, ["--nctx", "6", "--depth", "2", "--listpct", "70", "--badname", "30"], shards=SH),
+        ],
+    ),
 }
 
 
